@@ -241,6 +241,31 @@ def run(ctx: Ctx, rs: RuleSet, tier: str):
                  'a literal: the emitted expression raises NameError or '
                  'picks up an unrelated variable'), ctx.loc(f, f.node))
 
+  # ---- the emitted with_tags call fits with_tags' signature
+  rule = 'AGREE.with-tags-arity'
+  rs.declare(rule, 'auto_config.with_tags(...) is emitted with the arguments '
+             'its definition accepts', 1)
+  wt = ctx.func('fiddle._src.experimental.with_tags.with_tags')
+  fixed_arity = (wt.node.args.vararg is None, len(wt.params))
+  em2 = ctx.func(f'{AC}.ir_to_cst.code_for_expr.traverse')
+  per_tag = False
+  for n in walk_function(em2.node):
+    if isinstance(n, ast.If) and 'WithTagsCall' in unparse(n.test):
+      for L in ast.walk(n):
+        if isinstance(L, ast.For) and any(
+            isinstance(c, ast.Call) and isinstance(c.func, ast.Attribute) and
+            c.func.attr == 'append' and 'cst.Arg' in unparse(c)
+            for c in ast.walk(L)):
+          per_tag = True
+  ok = not (per_tag and fixed_arity[0])
+  rs.check(ok, rule, f'{em2.qualname}:WithTagsCall',
+           'one argument for the tags' if ok else
+           'one positional argument is emitted per tag, but with_tags(value, '
+           f'tags) takes exactly {fixed_arity[1]} parameters: an argument with '
+           'two tags is emitted as auto_config.with_tags(v, ATag, BTag), which '
+           'raises TypeError when the generated module runs',
+           ctx.loc(em2, em2.node))
+
   # ---- names emitted as builtins are builtins
   import builtins as _builtins
   rule = 'LIT.builtin-reference'
